@@ -12,7 +12,7 @@
     correspondence run).  The only facts assumed of the white-space class are that it contains no name
     character and none of the delimiters.  The right-hand side mentions no blank. *)
 From Coq Require Import List NArith.
-From PV Require Import Names.NameModel DD.DDModel Marker.Concrete Marker.Expr Text.Cursor Text.MarkerParse Text.ReqParse Text.AcceptProofs.
+From PV Require Import Names.NameModel DD.DDModel Marker.Concrete Marker.Expr Marker.Sem508 Text.Cursor Text.MarkerParse Text.ReqParse Text.AcceptProofs Text.MarkerAccept.
 Import ListNotations.
 Open Scope N_scope.
 
@@ -58,10 +58,30 @@ Proof.
   exact (accept_ws_irrelevant ws alpha alnum kw vparse specpat specver pv pfv specparse url_oracle getenv project_root verbatim ext Hws_name Hws_delims
            name m w0 w1 x w2 k w3 w4 n ids kd mo wm w0' w1' x' w2' k' w3' w4' n' ids' kd' mo' wm').
 Qed.
+
+(** the marker hypothesis of [C07_accept] holds for every marker text derivable from the marker grammar
+    (Text/MarkerAccept.v): the marker component is the compiled syntax tree of the derivation, at any
+    position in the requirement *)
+Hypothesis Hws_wc : forall x, word_char alnum x = true -> ws x = false.
+Hypothesis Hws_mdelims : forall x, In x [34;39;40;41;60;61;62;126;33] -> ws x = false.
+Hypothesis Hws_it : ws 105 = false /\ ws 116 = false.
+Hypothesis Halpha_in : alpha 105 = true /\ alpha 110 = true.
+Hypothesis Halpha_sym : forall x, In x [60;61;62;126;33] -> alpha x = false.
+Hypothesis Halnum_kw : forall x, In x [97;110;100;111;114] -> alnum x = true.
+Hypothesis Halnum_delims : forall x, In x [40;41;34;39] -> alnum x = false.
+
+Theorem C07_marker_component (ms : msrc) (w : text) : MarkerAccept.wf ws kw ms -> MarkerAccept.blank ws w ->
+  marker_ok ws alpha alnum kw vparse specpat specver pv pfv (Some (msrc_text ms ++ w)) []
+    (compile_ast pv pfv (ast_of ws kw vparse specpat specver ms)) (warns_of ws kw vparse specpat specver ms).
+Proof.
+  intros W B. split; [reflexivity|]. intros p.
+  exact (parse_markers_cursor_accept ws alpha alnum kw vparse specpat specver pv pfv Hws_wc Hws_mdelims Hws_it Halpha_in Halpha_sym Halnum_kw Halnum_delims ms w p W B).
+Qed.
 End C07.
 
 Print Assumptions C07_accept.
 Print Assumptions C07_white_space_irrelevant.
+Print Assumptions C07_marker_component.
 
 (** non-vacuity: the hypotheses are met by ordinary requirements (see also AcceptExample.ex_paren / ex_url) *)
 Example C07_nonvacuous := AcceptExample.ex_paren.
